@@ -33,7 +33,7 @@ def in_array(name, n, lo=None, hi=None, npk=True, general=False):
             e = XR(fv(i), fn_(i), fp_(i), fm_(i), npk=npk)
         else:
             e = XR(fv(i), npk=npk)
-        h = i.hash()
+        h = tid(i)
         if h not in seen:
             seen.add(h)
             cc = ctx()
@@ -61,5 +61,5 @@ def skolem(name, n):
     c.index_terms_add(j)
     if not hasattr(c, "skolems"):
         c.skolems = {}
-    c.skolems[j.hash()] = j
+    c.skolems[tid(j)] = j
     return j
